@@ -19,6 +19,8 @@ for d in sorted(glob.glob(os.path.join(VERIF, "seeded", "*"))):
     if not name.startswith(pref):
         continue
     meta = json.load(open(os.path.join(d, "meta.json")))
+    if meta.get("obsolete"):
+        rows.append((name, "-", "OBSOLETE", "no longer breaks the property on the current tree (see meta.json)")); continue
     checks = meta.get("checks") or CHECKS.get(name, [meta["property"]])
     if sh("git -C /repo status --porcelain").stdout.strip():
         print("refusing: /repo has uncommitted changes"); sys.exit(2)
